@@ -23,7 +23,7 @@ def run(ctx):
     corpus = construct_corpus()
     canon = []
     for _ in range(1500 if quick else 20000):
-        canon.append(gen_pattern(rng, max_size=40))
+        canon.append(gen_pattern(rng, max_size=40, max_wide=80))   # acceptance does not depend on class width; wide classes are slow on the followpos route
     muts = []
     for p in rng.sample(canon, 300 if quick else 3000):
         for _ in range(4 if quick else 10):
